@@ -111,7 +111,7 @@ def pl(pol):
 class C15(Prop):
     id = "C15"
     title = "File access is confined to the mudlib and always mediated by the master"
-    lean_modules = ["NV.C15.Props", "NV.C15.PropsSys", "NV.C15.Negative", "NV.C15.Sites", "NV.C15.Witness"]
+    lean_modules = ["NV.C15.Props", "NV.C15.PropsSys", "NV.C15.PropsLen", "NV.C15.Negative", "NV.C15.Sites", "NV.C15.Witness"]
     theorems = ["NV.C15.legalPath_eq_spec", "NV.C15.legal_path_spec", "NV.C15.legal_path_secure",
                 "NV.C15.legal_path_safe", "NV.C15.check_valid_path_eq_spec", "NV.C15.check_valid_path_sound",
                 "NV.C15.check_valid_path_denied", "NV.C15.strip_name_relative", "NV.C15.load_open_confined",
@@ -124,7 +124,13 @@ class C15(Prop):
                 "NV.C15.efun_segOk", "NV.C15.fold_ok", "NV.C15.check_valid_path_error_fails_closed",
                 "NV.C15.check_valid_path_absent_or_odd_approves", "NV.C15.mediation_propagates_errors", "NV.C15.cvp_call_table", "NV.C15.legal_path_literals",
                 "NV.C15.save_tmp_format",
-                "NV.C15.mediated_sites", "NV.C15.inventory_covers_efuns", "NV.C15.efun_surface_modelled"]
+                "NV.C15.mediated_sites", "NV.C15.inventory_covers_efuns", "NV.C15.efun_surface_modelled",
+                "NV.C15.ext_callees_classified", "NV.C15.fs_callees_cover",
+                "NV.C15.buffer_sizes", "NV.C15.buffer_guards_present", "NV.C15.getdir_path_not_truncated",
+                "NV.C15.getdir_entry_fits", "NV.C15.getdir_long_path_refused", "NV.C15.ed_getfn_exact",
+                "NV.C15.rename_newfrom_fits", "NV.C15.rename_copy_fits", "NV.C15.segOk_entryStats", "NV.C15.segOk_move",
+                "NV.C15.segOk_cpTail", "NV.C15.symlinks_confined", "NV.C15.compsSafe_never_climbs",
+                "NV.C15.link_creates_safe_targets"]
     witness_theorems = ["NV.C15.include_normaliser_not_confined", "NV.C15.include_normaliser_trailing_dotdot",
                         "NV.C15.include_normaliser_slash_quirk", "NV.C15.include_unguarded_escapes",
                         "NV.C15.include_unguarded_escapes_dotdot", "NV.C15.include_empty_dir_absolute",
